@@ -2178,22 +2178,7 @@ def spec_inference_candidates(fns, consts):
     if n_alias == 0:
         add(fn, "no alias path in the candidate closure", [], "true")
     enc.append(_enc(fn, ex, len(ex.returns)))
-    # long flag subcommands: all long-flag aliases
-    lf = [f.get() for n, f in fns.items() if re.search(r"parser/parser\.rs.*::possible_long_flag_subcommand::\{closure#0\}::\{closure#0\}$", n)]
-    if len(lf) == 1:
-        lex = symex.Exec(ctx, lf[0], [("opq", "lenv"), ("opq", "long")]).run()
-        lsw = [ctx.keys[k] for k in ctx.keys if re.match(r"^core::str::<impl str>::starts_with::<&str>\(long,", k)]
-        for (pc, val), ca in zip(lex.returns, lex.return_callargs):
-            if len(lsw) == 1 and lsw[0] in pc:
-                ok = val[0] == "enum" and val[1] == "Some" and "Command::get_name(" in ex.key(val[2])
-                add(lf[0], "a long flag that starts with the token makes its subcommand a candidate", pc, "false" if ok else "true")
-            else:
-                fm = [c for c in ca if re.search(r" as Iterator>::find_map::<", c[0])]
-                ok = len(fm) == 1 and re.match(r"^command::Command::get_all_long_flag_aliases\(", fm[0][1][0]) is not None and val[0] == "opq" and val[1] == fm[0][2]
-                add(lf[0], "otherwise the subcommand is a candidate through ALL its long-flag aliases", pc, "false" if ok else "true")
-        enc.append(_enc(lf[0], lex, len(lex.returns)))
-    else:
-        add(fn, "long-flag candidate closure not found", [], "true")
+    # long flag subcommands: decided by spec_long_flag_alias_inference
     return ctx, obs, enc, con
 
 
@@ -2343,3 +2328,99 @@ def spec_option_sort_key(fns, consts):
 
 
 SPECS["C12"].append(spec_option_sort_key)
+
+
+# ------------------------------------------------------------------ known-finding clauses (defects of the unmodified code that are recorded, not repaired)
+
+def spec_long_flag_subcommand_value(fns, consts):
+    """Parser::parse_long_arg: a token `--name=value` whose name is a long flag SUBCOMMAND must not be
+    dispatched as that subcommand while silently dropping `value` (C02: every token is consumed exactly
+    once or the line is rejected): on every path returning FlagSubCommand the attached value is None."""
+    con = contracts.Contracts(fns, default_pure=True)
+    ctx = symex.Ctx(consts, con)
+    fn = _find(fns, "parser/parser.rs", "parse_long_arg")
+    names = []
+    for i, (loc, ty) in enumerate(fn.params):
+        names.append("self" if i == 0 else ("parse_state" if "ParseState" in ty else ("long_value" if ty.strip().startswith("Option<&std::ffi::OsStr>") else f"pla_a{i}")))
+    ex = symex.Exec(ctx, fn, [("opq", n) for n in names])
+    ex.run(havoc_unassigned=True, cut_loops=True)
+    lv = ex.typed_fresh("discr(long_value)", "isize")[1]
+    obs, n = [], 0
+    for pc, val in ex.returns:
+        if val[0] == "enum" and val[1] == "Ok" and val[2] is not None and "FlagSubCommand" in ex.key(val[2]):
+            n += 1
+            obs.append({"fn": fn.name, "block": "ret", "kind": "spec", "target": "long_flag_subcommand_value",
+                        "msg": "a long flag subcommand is dispatched only when the token carries no `=value` (an attached value is never dropped silently)", "pc": list(pc), "neg": f"(= {lv} (_ bv1 64))"})
+    if n == 0:
+        obs.append({"fn": fn.name, "block": "shape", "kind": "spec", "target": "long_flag_subcommand_value", "msg": "parse_long_arg: no path returns FlagSubCommand", "pc": [], "neg": "true"})
+    return ctx, obs, [_enc(fn, ex, n)], con
+
+
+def spec_long_flag_alias_inference(fns, consts):
+    """Parser::possible_long_flag_subcommand's candidate closure (executed from its MIR): a subcommand is
+    an inference candidate, under its name, exactly when its primary long flag starts with the token OR
+    any of ALL its long-flag aliases does - whether or not it declares a primary long flag (exact matching
+    accepts alias-only subcommands, so a unique prefix must be accepted and an ambiguous one rejected);
+    the two inner predicates are `x.starts_with(token)`."""
+    con = contracts.Contracts(fns, default_pure=True)
+    ctx = symex.Ctx(consts, con)
+    outer = [f.get() for n, f in fns.items() if re.search(r"parser/parser\.rs.*::possible_long_flag_subcommand::\{closure#0\}$", n)]
+    if len(outer) != 1:
+        raise Unsupported("possible_long_flag_subcommand: candidate closure not found")
+    fn = outer[0]
+    ex = symex.Exec(ctx, fn, [("opq", "env"), ("opq", "sc")]).run()
+    obs, enc = [], [_enc(fn, ex, len(ex.returns))]
+
+    def add(f, msg, pc, neg):
+        obs.append({"fn": f.name, "block": "ret", "kind": "spec", "target": "long_flag_alias_inference", "msg": msg, "pc": list(pc), "neg": neg})
+
+    prim = [ctx.keys[k] for k in ctx.keys if re.match(r"^Option::<bool>::unwrap_or\(Option::<&str>::map::<bool, .*>\(command::Command::get_long_flag\(sc\),.*\),false\)$", k)]
+    anyk = [ctx.keys[k] for k in ctx.keys if re.match(r"^<.* as Iterator>::any::<\{closure@[^}]*\}>\(command::Command::get_all_long_flag_aliases\(sc\),", k)]
+    if len(prim) != 1 or len(anyk) != 1:
+        for pc, val in ex.returns:
+            add(fn, "long-flag aliases make a subcommand an inference candidate even when it declares no primary long flag (reference shape: primary.starts_with || aliases.any(starts_with))", pc, "true")
+        return ctx, obs, enc, con
+    cond = f"(or {prim[0]} {anyk[0]})"
+    for pc, val in ex.returns:
+        is_some = val[0] == "enum" and val[1] == "Some"
+        named = is_some and ex.key(val[2]) == "command::Command::get_name(sc)"
+        add(fn, "a subcommand is a long-flag inference candidate (under its name) iff its long flag or ANY of its long-flag aliases starts with the token", pc,
+            "true" if (is_some and not named) else (f"(not {cond})" if is_some else cond))
+    for sub, item in (("{closure#0}", "long"), ("{closure#1}", "alias")):
+        c = [f.get() for n, f in fns.items() if n == fn.name + "::" + sub]
+        if len(c) != 1:
+            add(fn, f"inner predicate {sub} not found", [], "true")
+            continue
+        cex = symex.Exec(ctx, c[0], [("opq", f"lf_env_{item}"), ("opq", f"lf_{item}")]).run()
+        ks = [ctx.keys[k] for k in ctx.keys if re.match(rf"^core::str::<impl str>::starts_with::<&str>\(lf_{item},", k)]
+        for pc, val in cex.returns:
+            add(c[0], f"the {item} predicate is `starts_with(token)`", pc, f"(not (= {val[1]} {ks[0]}))" if (len(ks) == 1 and val[0] == "bool") else "true")
+        enc.append(_enc(c[0], cex, len(cex.returns)))
+    return ctx, obs, enc, con
+
+
+def spec_option_sort_key_kinds(fns, consts):
+    """option_sort_key across kinds: the two-character key of a short flag (lower(x), '0'|'1') must not be
+    producible as the key of a long-only option (its long name), or the two overwrite each other in the
+    help map when they share a display order."""
+    con = contracts.Contracts(fns, default_pure=True)
+    ctx = symex.Ctx(consts, con)
+    fn = _find(fns, "", "option_sort_key")
+    ex = symex.Exec(ctx, fn, [("opq", "arg")]).run()
+    long_paths = [ca for (pc, val), ca in zip(ex.returns, ex.return_callargs) if any(c[0] == "<str as ToString>::to_string" and "Arg::get_long(arg)" in c[1][0] for c in ca)]
+    x = ctx.sym("short_x", "(_ BitVec 32)")
+    c1, c2 = ctx.sym("long_char_1", "(_ BitVec 32)"), ctx.sym("long_char_2", "(_ BitVec 32)")
+    lower = f"(ite (and (bvuge {x} (_ bv65 32)) (bvule {x} (_ bv90 32))) (bvadd {x} (_ bv32 32)) {x})"
+    islower = f"(and (bvuge {x} (_ bv97 32)) (bvule {x} (_ bv122 32)))"
+    obs = []
+    # the long key is the long name itself (verbatim): a two-character long name can equal a short key
+    verbatim = bool(long_paths) and all(not any(c[0] in ("String::push", "String::push_str") for c in ca) for ca in long_paths)
+    obs.append({"fn": fn.name, "block": "ret", "kind": "spec", "target": "option_sort_key_kinds",
+                "msg": "no two-character long name equals the sort key of a short flag (keys of different kinds cannot collide)", "pc": [],
+                "neg": (f"(and (bvult {x} (_ bv128 32)) (bvugt {x} (_ bv32 32)) (= {c1} {lower}) (= {c2} (ite {islower} (_ bv48 32) (_ bv49 32))))" if verbatim else "false")})
+    return ctx, obs, [_enc(fn, ex, len(long_paths))], con
+
+
+SPECS["C02"].append(spec_long_flag_subcommand_value)
+SPECS["C08"].append(spec_long_flag_alias_inference)
+SPECS["C12"].append(spec_option_sort_key_kinds)
